@@ -45,6 +45,9 @@ def corr(signature, what):
     return Failure("corr", signature, what)
 
 
+LOG_MODES = ["module-warning", "module-debug", "module-critical", "module-info"]
+
+
 class InfraError(Exception):
     pass
 
@@ -318,7 +321,12 @@ class Check(object):
     # -- case side
     def run_one(self, stream, case):
         try:
-            fs = self.mod.run_case(self, stream, case) or []
+            from lib import logcfg
+            mode = case.get("_log") if isinstance(case, dict) else None
+            with logcfg.levels(mode):
+                if mode:
+                    self.hit("logging:" + mode)
+                fs = self.mod.run_case(self, stream, case) or []
         except InfraError:
             raise
         except BaseException as e:
@@ -360,6 +368,10 @@ class Check(object):
                 self.distinct.add(hashlib.sha1(repr(key).encode()).digest()[:8])
             if len(self.samples) < 6 and self.per_stream[stream] <= 2:
                 self.samples.append({"stream": stream, "case": _clip(case)})
+            if self.evals % 6 == 5 and isinstance(case, dict) and "_log" not in case and "loglevel" not in case:
+                # the application's logging configuration is its own business (lib/logcfg.py): every sixth case runs with the library's loggers
+                # at another level; the key travels with the case into the replay file
+                case = dict(case, _log=LOG_MODES[(self.evals // 6) % len(LOG_MODES)])
             for f in self.run_one(stream, case):
                 self.failures.append((stream, case, f))
             if len(self.failures) > 200:
